@@ -131,7 +131,14 @@ def run(ctx):
     okd = dc is not None and any(isinstance(c, ast.Call) and ast.unparse(c.func) == "self.dataset.copy" and any(
         k.arg == "deep" and isinstance(k.value, ast.Constant) and k.value.value is True for k in c.keywords) for c in calls(dc.node))
     rets = [n for n in own_walk(dc.node) if isinstance(n, ast.Return)] if dc else []
-    okd = okd and all(isinstance(r.value, ast.Call) and ast.unparse(r.value.func) in ("cls", "self.__class__", "type(self)") for r in rets)
+    from .fc import substitute_defs
+    SAME_CLASS = ("self.__class__", "type(self)")
+
+    def ctor_of(fn_node, r):
+        """constructor expression of `return <ctor>(...)` with local aliases (cls = type(self)) resolved"""
+        v = substitute_defs(fn_node, r.value, {"self"}) if r.value is not None else None
+        return ast.unparse(v.func) if isinstance(v, ast.Call) else None
+    okd = okd and all(ctor_of(dc.node, r) in SAME_CLASS for r in rets)
     ctx.expect(okd, "R15.2", "DatasetWrapper.__deepcopy__", "a deep copy is a new object of the same class over Dataset.copy(deep=True)",
                dc.loc() if dc else "")
     okc = False
@@ -168,18 +175,33 @@ def run(ctx):
     unr = [c for c in calls(fl.node) if ast.unparse(c.func) == "np.unravel_index"]
     ctx.expect(len(orders) == 1 and n_calls >= 2 and len(unr) == 1, "R15.3", "WaveSpectrum.flatten[one order]",
                "coordinates are unravelled and data reshaped with the same (C) memory order", fl.loc(), derived=str(sorted(orders)))
-    la = {ast.unparse(n.targets[0]): ast.unparse(n.value) for n in own_walk(fl.node) if isinstance(n, ast.Assign) and len(n.targets) == 1}
-    oks = la.get("new_shape") == "(length,)" and la.get("new_spectral_shape") == "(length, *self.spectral_shape())" \
-        and set(shapes) == {"new_shape", "new_spectral_shape"} and unr and ast.unparse(unr[0].args[1]) == "shape" \
-        and la.get("shape") in ("self.space_time_shape()",)
+    from .fc import local_assignments as _la
+    fla = _la(fl.node)
+    rs = [c for c in calls(fl.node) if ast.unparse(c.func).endswith(".reshape") and c.args]
+    shp = [substitute_defs(fl.node, c.args[0], {"self"}) for c in rs]
+    tup = [x for x in shp if isinstance(x, ast.Tuple) and x.elts and isinstance(x.elts[0], ast.Name)]
+    lens = {x.elts[0].id for x in tup}
+    oks = len(tup) == len(shp) >= 2 and len(lens) == 1
+    if oks:
+        L = next(iter(lens))
+        plain = [x for x in tup if len(x.elts) == 1]
+        spec_ = [x for x in tup if len(x.elts) == 2 and isinstance(x.elts[1], ast.Starred)
+                 and ast.unparse(x.elts[1].value) == "self.spectral_shape()"]
+        S = ast.unparse(unr[0].args[1]) if unr and len(unr[0].args) > 1 else None
+        ldefs = [ast.unparse(d[1]) for d in fla.get(L, []) if d[0] == "assign"]
+        sdefs = [ast.unparse(d[1]) for d in fla.get(S or "", []) if d[0] == "assign"]
+        oks = bool(plain) and bool(spec_) and len(plain) + len(spec_) == len(tup) and S is not None \
+            and f"np.prod({S})" in ldefs and "self.space_time_shape()" in sdefs
     ctx.expect(bool(oks), "R15.3", "WaveSpectrum.flatten[one length]",
                "the flattened length is the product of the space-time shape for coordinates, spectral and non-spectral variables alike",
-               fl.loc(), derived=str({k: la.get(k) for k in ("new_shape", "new_spectral_shape", "length", "shape")}))
+               fl.loc(), derived=str([ast.unparse(x) for x in shp]))
     # load dispatch
     it = spec_interp(p)
     ld = p.get_function(SPEC + "load_spectrum_from_netcdf")
     tests = [n for n in own_walk(ld.node) if isinstance(n, ast.If)]
-    okl = len(tests) == 1 and ast.unparse(tests[0].test) in ("NAME_D in dataset.coords", "'direction' in dataset.coords") \
+    import re as _re
+    t0 = ast.unparse(substitute_defs(ld.node, tests[0].test, set())) if len(tests) == 1 else ""
+    okl = len(tests) == 1 and bool(_re.fullmatch(r"(NAME_D|'direction') in xarray\.open_dataset\(.*\)\.coords", t0)) \
         and "FrequencyDirectionSpectrum(" in ast.unparse(ast.Module(body=tests[0].body, type_ignores=[])) \
         and "FrequencySpectrum(" in ast.unparse(ast.Module(body=tests[0].orelse, type_ignores=[])) \
         and "FrequencyDirectionSpectrum(" not in ast.unparse(ast.Module(body=tests[0].orelse, type_ignores=[]))
@@ -195,14 +217,16 @@ def run(ctx):
     if len(concat) == 1:
         a0 = concat[0].args[0] if concat[0].args else None
         dimkw = next((k.value for k in concat[0].keywords if k.arg == "dim"), None)
-        okc = isinstance(a0, ast.ListComp) and len(a0.generators) == 1 and ast.unparse(a0.generators[0].iter) == "spectra" \
-            and not a0.generators[0].ifs and ast.unparse(a0.elt) == "x.dataset[variable_name]" and dimkw is not None \
-            and ast.unparse(dimkw) == "dim"
+        vloop = [n for n in own_walk(cc.node) if isinstance(n, ast.For) and concat[0] in list(ast.walk(n)) and isinstance(n.target, ast.Name)]
+        vname = vloop[0].target.id if len(vloop) == 1 else "?"
+        okc = isinstance(a0, ast.ListComp) and len(a0.generators) == 1 and ast.unparse(a0.generators[0].iter) == cc.params[0] \
+            and not a0.generators[0].ifs and isinstance(a0.generators[0].target, ast.Name) \
+            and ast.unparse(a0.elt) == f"{a0.generators[0].target.id}.dataset[{vname}]" and dimkw is not None \
+            and ast.unparse(dimkw) == cc.params[1]
     ctx.expect(okc, "R15.3", "concatenate_spectra[order and dim]",
                "every variable is concatenated over the inputs in their given order along the one requested dimension", cc.loc())
     rets = [n for n in own_walk(cc.node) if isinstance(n, ast.Return)]
-    la = {ast.unparse(n.targets[0]): ast.unparse(n.value) for n in own_walk(cc.node) if isinstance(n, ast.Assign) and len(n.targets) == 1}
-    okr = la.get("cls") == "type(spectra[0])" and all(ast.unparse(r.value) == "cls(dataset)" for r in rets)
+    okr = bool(rets) and all(ctor_of(cc.node, r) == f"type({cc.params[0]}[0])" for r in rets)
     ctx.expect(okr, "R15.3", "concatenate_spectra[result class]", "the result has the class of the inputs", cc.loc())
     loops = [n for n in own_walk(cc.node) if isinstance(n, ast.For) and ast.unparse(n.iter) == "spectra[0]"]
     ctx.expect(len(loops) == 1, "R15.3", "concatenate_spectra[all variables]", "all variables of the inputs are concatenated", cc.loc())
@@ -211,7 +235,7 @@ def run(ctx):
         m = dw.find_method(name)
         loops = [n for n in own_walk(m.node) if isinstance(n, ast.For) and ast.unparse(n.iter) == "self.dataset"]
         rets = [n for n in own_walk(m.node) if isinstance(n, ast.Return)]
-        ok = len(loops) == 1 and all(ast.unparse(r.value).startswith("cls(") for r in rets) and f".{name}(" in ast.unparse(loops[0])
+        ok = len(loops) == 1 and all(ctor_of(m.node, r) in SAME_CLASS for r in rets) and f".{name}(" in ast.unparse(loops[0])
         ctx.expect(ok, "R15.3", f"DatasetWrapper.{name}", "selection is applied to every variable and returns a new object of the same class", m.loc())
     ctx.require_count("R15.1", 150)
     ctx.require_count("R15.2", 5)
